@@ -166,6 +166,8 @@ struct Scenario {
     /// SIGXFSZ ignored: the write that would cross the limit is cut short / fails with EFBIG, like a full disk or
     /// an exhausted quota). Only used in the sandboxed `disk-quota` space (one worker process per chunk).
     fsize_limit: Option<u64>,
+    /// a DIRECTORY already sits where the cache entry would go: the download succeeds, nothing can be cached
+    dir_at_cache_path: bool,
 }
 impl Scenario {
     fn json(&self) -> Value {
@@ -234,7 +236,7 @@ fn n_lines(body: &[u8]) -> usize {
 
 fn scenarios(tier: Tier) -> Vec<Scenario> {
     let mut v: Vec<Scenario> = vec![];
-    let base = |class: &str, kind: Kind, scripts: Vec<Script>| Scenario { class: class.into(), kind, scripts, cancel_after: None, preexisting: None, broken_dirs: 0, then: None, timeout_ms: 60_000, fsize_limit: None };
+    let base = |class: &str, kind: Kind, scripts: Vec<Script>| Scenario { class: class.into(), kind, scripts, cancel_after: None, preexisting: None, broken_dirs: 0, then: None, timeout_ms: 60_000, fsize_limit: None, dir_at_cache_path: false };
     let bodies: Vec<Vec<u8>> = if tier == Tier::Thorough {
         vec![BODY.to_vec(), BODY.iter().map(|&b| b).chain(b"FUNC 3000 10 0 other\n3000 10 7 1\n".iter().copied()).collect(), b"MODULE a b c d\nPUBLIC 10 0 x\n".to_vec()]
     } else {
@@ -378,6 +380,12 @@ fn scenarios(tier: Tier) -> Vec<Scenario> {
             sc.broken_dirs = 2;
             v.push(sc);
         }
+    }
+    // a directory sits at the path of the cache entry: nothing can be cached, nothing may be left in tmp
+    for framing in ["content-length", "chunked"] {
+        let mut sc = base("directory-at-the-cache-path", Kind::Symbols, vec![script_full(framing, BODY)]);
+        sc.dir_at_cache_path = true;
+        v.push(sc);
     }
     // two servers: the first fails in some way, the second delivers
     let second_body: Vec<u8> = [BODY, b"PUBLIC 9000 0 from_second_server\n"].concat();
@@ -560,6 +568,9 @@ fn check_scenario_inner(sc: &Scenario, l: &mut Local) {
         Kind::File(FileKind::Binary) => "foo.pdb/ABCD1234ABCD1234ABCDABCD12345678a/foo.dll".to_string(),
         Kind::File(_) => "foo.pdb/ABCD1234ABCD1234ABCDABCD12345678a/foo.pdb".to_string(),
     };
+    if sc.dir_at_cache_path {
+        std::fs::create_dir_all(cache.join(&rel)).unwrap();
+    }
     if let Some(pre) = &sc.preexisting {
         let p = cache.join(&rel);
         std::fs::create_dir_all(p.parent().unwrap()).unwrap();
@@ -649,7 +660,7 @@ fn check_scenario_inner(sc: &Scenario, l: &mut Local) {
                     }
                     want.extend_from_slice(format!("INFO URL {url}\n").as_bytes());
                 }
-                if sc.fsize_limit.is_some() && cf.is_empty() {
+                if (sc.fsize_limit.is_some() || sc.dir_at_cache_path) && cf.is_empty() {
                     // the quota cut the cache copy: caching is optional, the download itself must still succeed
                     l.outcome("disk-quota: no cache entry");
                 } else if cf.len() != 1 || cf[0].0 != rel {
@@ -737,7 +748,7 @@ fn quota_scenarios() -> Vec<Scenario> {
     limits.extend((0..=note_len).map(|k| BODY.len() as u64 + k));
     for limit in limits {
         for framing in ["content-length", "chunked"] {
-            v.push(Scenario { class: "disk-quota".into(), kind: Kind::Symbols, scripts: vec![script_full(framing, BODY)], cancel_after: None, preexisting: None, broken_dirs: 0, then: None, timeout_ms: 60_000, fsize_limit: Some(limit) });
+            v.push(Scenario { class: "disk-quota".into(), kind: Kind::Symbols, scripts: vec![script_full(framing, BODY)], cancel_after: None, preexisting: None, broken_dirs: 0, then: None, timeout_ms: 60_000, fsize_limit: Some(limit), dir_at_cache_path: false });
         }
     }
     v
